@@ -12,6 +12,7 @@ package c20
 
 import (
 	"fmt"
+	"math/big"
 	"strings"
 	"testing"
 
@@ -50,8 +51,8 @@ func checkCase(sub string) func(Case) error {
 				vk.S.Class("grid:kind:" + c.Kind)
 				vk.S.Class("grid:" + outcome)
 			} else {
-				vk.S.Class("history:" + outcome)
-				vk.S.ClassN("history:steps-executed", e.steps)
+				vk.S.Class(sub + ":" + outcome)
+				vk.S.ClassN(sub+":steps-executed", e.steps)
 			}
 			for k := range e.classes {
 				vk.S.Class(sub + ":" + k)
@@ -69,7 +70,7 @@ func checkCase(sub string) func(Case) error {
 			nt = c.Bound && repeatedOrMapPos[c.Pos]
 		} else {
 			if e.froze {
-				vk.S.Class("history:has-freeze")
+				vk.S.Class(sub + ":has-freeze")
 			}
 			nt = e.crossMutate
 		}
@@ -102,6 +103,7 @@ func caseKey(c Case) string {
 var (
 	subGrid    = vk.Register("grid", checkCase("grid"))
 	subHistory = vk.Register("history", checkCase("history"))
+	subLossless = vk.Register("lossless", checkCase("lossless"))
 )
 
 // ---------------------------------------------------------------- grid
@@ -718,7 +720,7 @@ func pickInt(t *rapid.T, xs ...int) int { return xs[vk.Uniform(t, len(xs))] }
 
 func TestPropHistory(t *testing.T) {
 	maxOps := vk.N(30, 60)
-	vk.Rapid(t, subHistory, vk.N(1500, 12000), func(t *rapid.T) Case {
+	vk.Rapid(t, subHistory, vk.N(1500, 8000), func(t *rapid.T) Case {
 		pInvalid := []float64{0, 0.05, 0.15, 0.3}[vk.Uniform(t, 4)]
 		var ops []Op
 		// Start with material to alias: one or two populated variables.
@@ -741,6 +743,91 @@ func TestPropHistory(t *testing.T) {
 				ops = append(ops, genOps(t, pInvalid)...)
 			}
 		}
+		return Case{Ops: ops}
+	})
+}
+
+// ---------------------------------------------------------------- lossless: random wide values at every position
+
+// bits draws an n-bit unsigned integer uniformly (fair bits).
+func bits(t *rapid.T, n int) *big.Int {
+	x := new(big.Int)
+	for i := 0; i < n; i += 16 {
+		w := 16
+		if n-i < 16 {
+			w = n - i
+		}
+		x.Lsh(x, uint(w))
+		x.Or(x, big.NewInt(int64(vk.Uniform(t, 1<<w))))
+	}
+	return x
+}
+
+func TestPropLossless(t *testing.T) {
+	str := rapid.StringN(0, 12, 40)
+	byt := rapid.SliceOfN(rapid.Byte(), 0, 12)
+	vk.Rapid(t, subLossless, vk.N(250, 1500), func(t *rapid.T) Case {
+		signed := func(n int) Val {
+			x := bits(t, n)
+			x.Sub(x, new(big.Int).Lsh(big.NewInt(1), uint(n-1)))
+			return vInt(x.String())
+		}
+		unsigned := func(n int) Val { return vInt(bits(t, n).String()) }
+		val := func(kind string) Val {
+			switch kind {
+			case "int32", "sint32", "sfixed32":
+				return signed(32)
+			case "uint32", "fixed32":
+				return unsigned(32)
+			case "int64", "sint64", "sfixed64":
+				return signed(64)
+			case "uint64", "fixed64":
+				return unsigned(64)
+			case "string":
+				return vStr(str.Draw(t, "s"))
+			case "bytes":
+				return vBytes(string(byt.Draw(t, "b")))
+			case "double":
+				return vFloat(fmtFloat(rapid.Float64().Draw(t, "f")))
+			case "float":
+				return vFloat(fmtFloat(float64(rapid.Float32().Draw(t, "f"))))
+			case "bool":
+				return vBool(vk.Chance(t, 0.5))
+			}
+			return pickVal(t, vI(0), vI(1), vI(5), vI(-2), vInt("2147483647"), vInt("-2147483648"), vStr("GREEN"), vEnum("Color.BIG"))
+		}
+		kinds := []string{"int32", "sint32", "sfixed32", "uint32", "fixed32", "int64", "sint64", "sfixed64", "uint64", "fixed64", "string", "bytes",
+			"double", "float", "bool", "enum"}
+		var kw []Val
+		var later []Op
+		for _, k := range kinds {
+			if vk.Chance(t, 0.35) {
+				continue
+			}
+			kw = append(kw, vStr("f_"+k), val(k), vStr("r_"+k), vList(val(k), val(k)), vStr("mv_"+k), vDict(vStr("a"), val(k), vStr("b"), val(k)))
+			key := k != "bytes" && k != "double" && k != "float" && k != "enum"
+			if key {
+				kw = append(kw, vStr("mk_"+k), vDict(val(k), vI(1), val(k), vI(2)))
+			}
+			switch vk.Uniform(t, 5) {
+			case 0:
+				later = append(later, Op{Op: "set", F: "f_" + k, V: pv(val(k)), Star: vk.Chance(t, 0.5)})
+			case 1:
+				later = append(later, Op{Op: "view", F: "r_" + k}, Op{Op: "setidx", A: recent, F: "r_" + k, I: vk.Uniform(t, 2), V: pv(val(k))},
+					Op{Op: "append", A: recent, F: "r_" + k, V: pv(val(k))})
+			case 2:
+				later = append(later, Op{Op: "view", F: "mv_" + k}, Op{Op: "setkey", A: recent, F: "mv_" + k, K: pv(vStr("c")), V: pv(val(k))})
+			case 3:
+				if key {
+					kv := val(k)
+					later = append(later, Op{Op: "view", F: "mk_" + k}, Op{Op: "setkey", A: recent, F: "mk_" + k, K: pv(kv), V: pv(vI(3))},
+						Op{Op: "elem", A: recent, F: "mk_" + k, K: pv(kv)})
+				}
+			}
+		}
+		ops := []Op{{Op: "new", M: "All", V: pv(vDict(kw...)), Star: vk.Chance(t, 0.5)}}
+		ops = append(ops, later...)
+		ops = append(ops, Op{Op: "rt", A: 0, B: 1, I: 1, Star: vk.Chance(t, 0.5)}, Op{Op: "rt", A: 1, B: 2, I: 1, Star: vk.Chance(t, 0.5)})
 		return Case{Ops: ops}
 	})
 }
